@@ -58,6 +58,13 @@ func (r *Report) finish() (int, error) {
 	os.RemoveAll(replayDir)
 
 	sort.SliceStable(r.All, func(i, j int) bool { return r.All[i].O.Name < r.All[j].O.Name })
+	// vacuity guards of one clause checked on several paths
+	groupOK := map[string]bool{}
+	for i := range r.All {
+		if ob := r.All[i].O; ob.Kind == "cover" && ob.Group != "" && ob.Res.Status != "unsat" {
+			groupOK[ob.Group] = true
+		}
+	}
 	// recorded findings: class predicates first (sequential), then the solver work in parallel
 	works := map[int]*knownWork{}
 	for i := range r.All {
@@ -86,7 +93,9 @@ func (r *Report) finish() (int, error) {
 			// vacuity guard: must be satisfiable
 			if ob.Res.Status != "sat" {
 				ev.Note = "vacuity guard failed: expected sat"
-				if ob.Res.Status == "unsat" {
+				if ob.Res.Status == "unsat" && ob.Group != "" && groupOK[ob.Group] {
+					ev.Note = "impossible on this path; satisfiable on another path of the same clause"
+				} else if ob.Res.Status == "unsat" {
 					r.EncErrs = append(r.EncErrs, fmt.Sprintf("vacuity: %s is unsatisfiable (contradictory assumptions)", ob.Name))
 				} else {
 					ev.Note = "vacuity guard undecided (" + ob.Res.Status + ")"
